@@ -471,3 +471,92 @@ class PatternCollection_clear_unused_dims:
 
     def canary(sh, a, ret):
         check("canary: nothing dropped", ret[0].num_dims == sh["dims"])
+
+
+# =====================================================================================
+# C16: the scheduler's constraint predicates against declarative specifications
+# =====================================================================================
+from snaxc.ir.dart.scheduler import is_memory_flexible_enough, is_output_channel_stationary, is_pure_output_stationary  # noqa: E402
+
+
+def mk_template(ops, rows, dims):
+    z = np.array([[0] * dims for _ in range(rows)]).reshape(rows, dims)
+    return Template([TemplatePattern([None] * dims, AffineTransform(z, np.array([0] * rows).reshape(rows))) for _ in range(ops)])
+
+
+def col_nonzero(A, j):
+    return any(A[i][j] != 0 for i in range(len(A)))
+
+
+CONSTR = [dict(ops=o, rows=r, temporal=t, tdims=td) for o in (1, 2) for r in (1, 2) for t in (0, 1, 2, 3, 4) for td in (1, 2, 3) if t + td <= 6]
+
+
+@contract
+class is_pure_output_stationary_contract:
+    target = "snaxc.ir.dart.scheduler.is_pure_output_stationary"
+    shapes = CONSTR
+    quick = lambda sh: sh["temporal"] <= 3 and sh["tdims"] <= 2
+    total = True
+
+    def args(sh, sym):
+        n = sh["temporal"] + sh["tdims"]
+        return [mk_template(sh["ops"], sh["rows"], sh["tdims"]), mk_schedule(sym, sh["ops"], sh["rows"], n)]
+
+    def ensures(sh, a, ret):
+        A = tolist(a[1][sh["ops"] - 1].pattern.A)
+        T = sh["temporal"]
+        # spec: among the temporal columns of the OUTPUT operand no reduction (all-zero) column precedes a parallel one
+        spec = all(not (not col_nonzero(A, i) and col_nonzero(A, j)) for i in range(T) for j in range(i + 1, T))
+        check("is_pure_output_stationary <=> no all-zero temporal column precedes a non-zero one (output operand)", ret == spec)
+
+    def canary(sh, a, ret):
+        check("canary: every schedule is output stationary", ret and sh["temporal"] >= 2)
+
+
+@contract
+class is_output_channel_stationary_contract:
+    target = "snaxc.ir.dart.scheduler.is_output_channel_stationary"
+    shapes = [dict(sh, ch=c) for sh in CONSTR if sh["temporal"] >= 1 for c in range(sh["rows"])]
+    quick = lambda sh: sh["temporal"] <= 3 and sh["tdims"] <= 2
+    total = True
+
+    def args(sh, sym):
+        n = sh["temporal"] + sh["tdims"]
+        return [mk_template(sh["ops"], sh["rows"], sh["tdims"]), mk_schedule(sym, sh["ops"], sh["rows"], n), sh["ch"]]
+
+    def ensures(sh, a, ret):
+        row = tolist(a[1][sh["ops"] - 1].pattern.A)[sh["ch"]][: sh["temporal"]]
+        spec = all(x == 0 for x in row) or row[0] != 0
+        check("is_output_channel_stationary <=> the channel row is all zero or starts with a non-zero (no zero before the first non-zero)", ret == spec)
+
+    def canary(sh, a, ret):
+        check("canary: always channel stationary", ret)
+
+
+@contract
+class is_memory_flexible_enough_contract:
+    target = "snaxc.ir.dart.scheduler.is_memory_flexible_enough"
+    shapes = [dict(sh, sizes=sz) for sh in CONSTR if sh["temporal"] <= 3 for sz in ((1, 4), (2, 8), (8, 1))]
+    quick = lambda sh: sh["temporal"] <= 2 and sh["tdims"] <= 2 and sh["sizes"] != (8, 1)
+    total = True
+
+    def args(sh, sym):
+        n = sh["temporal"] + sh["tdims"]
+        return [mk_template(sh["ops"], sh["rows"], sh["tdims"]), mk_schedule(sym, sh["ops"], sh["rows"], n), list(sh["sizes"])[: sh["ops"]]]
+
+    def ensures(sh, a, ret):
+        T, n = sh["temporal"], sh["temporal"] + sh["tdims"]
+        if T == 0:
+            check("no temporal dimensions: nothing to check", ret is True or ret == True)  # noqa: E712
+        else:
+            ok = True
+            for o in range(sh["ops"]):
+                A = tolist(a[1][o].pattern.A)
+                size = a[2][o]
+                g = -(-8 // size)  # ceil(bank width / element size)
+                # some result row has only bank-aligned temporal coefficients AND a spatial coefficient equal to 1
+                ok = ok and any(all(A[i][j] % g == 0 for j in range(T)) and any(A[i][j] == 1 for j in range(T, n)) for i in range(sh["rows"]))
+            check("is_memory_flexible_enough <=> every operand has a row with aligned temporal strides and a unit spatial stride", ret == ok)
+
+    def canary(sh, a, ret):
+        check("canary: always flexible enough", ret)
